@@ -77,9 +77,14 @@ func ValidatePricing(pricing Pricing) error {
 	// CONTRACT:
 	// p.EndTime > p.StartTime
 	// p[i].StartTime >= p[i-1].EndTime
+	// p.StartTime and p.EndTime lie in the years 1 to 9999 (what the stored form can hold)
 	for i, p := range pricing.PromotionsByTime {
 		if !p.EndTime.After(p.StartTime) || (i > 0 && p.StartTime.Before(pricing.PromotionsByTime[i-1].EndTime)) {
 			return sdkerrors.Wrapf(ErrInvalidPricing, "invalid timing promotion %d", i)
+		}
+
+		if p.StartTime.Year() < 1 || p.EndTime.Year() > 9999 {
+			return sdkerrors.Wrapf(ErrInvalidPricing, "invalid timing promotion %d: time out of range", i)
 		}
 	}
 
